@@ -139,7 +139,11 @@ theorem no_repeated_extension (p p' : CertParams) (seen : List (List Nat)) (exts
         simp only [hv] at h
         cases hs : importSans names with
         | error x => simp [hs] at h
-        | ok s => simp only [hs] at h; exact step _ h
+        | ok s =>
+          simp only [hs] at h
+          split at h
+          · cases h
+          · exact step _ h
       | eku oids =>
         simp only [hv] at h
         split at h
@@ -176,21 +180,20 @@ theorem carries_key_usage (p p' : CertParams) (seen : List (List Nat)) (bits : L
       simp only [Bool.or_eq_true, List.isEmpty_iff, bne_iff_ne, ne_eq, not_or, Decidable.not_not] at hc
       exact ⟨rfl, hc.1, hc.2, rfl, rfl⟩
 
-/-- subject alternative names are appended in the order requested -/
+/-- **subject alternative names are carried over exactly**: at least one name, appended in the
+    order requested, and the requested value is byte for byte the one rcgen writes for them -/
 theorem carries_san (p p' : CertParams) (seen : List (List Nat)) (names : List GName)
     (oid : List Nat) (c : Bool) (raw : Bytes)
     (h : applyRequested p seen [(⟨oid, c, .san names⟩, raw)] = .ok p') :
-    ∃ s, importSans names = .ok s ∧ p'.sans = p.sans ++ s ∧ p'.keyUsages = p.keyUsages := by
-  simp only [applyRequested] at h
-  split at h
-  · cases h
-  · cases hs : importSans names with
-    | error x => simp [hs] at h
-    | ok s =>
-      simp only [hs] at h
-      injection h with h
-      subst h
-      exact ⟨s, rfl, rfl, rfl⟩
+    ∃ s, importSans names = .ok s ∧ s ≠ [] ∧ encode (.seq (s.map sanNode)) = raw ∧
+      p'.sans = p.sans ++ s ∧ p'.keyUsages = p.keyUsages := by
+  obtain ⟨s, h1, h2, h3⟩ := Proofs.CsrRoundTrip.ar_san_guard _ _ _ _ _ _ _ _ h
+  obtain ⟨s', h1', h4⟩ := Proofs.CsrRoundTrip.ar_san _ _ _ _ _ _ _ _ h
+  have : s' = s := by rw [h1] at h1'; injection h1' with e; exact e.symm
+  subst this
+  have := Proofs.CsrRoundTrip.ar_nil _ _ _ h4
+  subst this
+  exact ⟨s', h1, h2, h3, rfl, rfl⟩
 
 /-- **issuance carries the request, and nothing but the request.**  For every byte string the
     parser accepts (rcgen's own requests and anybody else's), every third-party verifier, every
